@@ -4,6 +4,7 @@ import (
 	"bytes"
 	"fmt"
 	"math/rand"
+	"reflect"
 	"runtime"
 	"strconv"
 	"strings"
@@ -137,18 +138,31 @@ func (l *schedLocker) Unlock() {
 	l.set.mu.Unlock()
 }
 
-func newSchedLockSet(ctl *sched.Controller, n int, multiReader bool) (*schedLockSet, []sync.Locker, []sync.Locker) {
+// newSchedLockSet mirrors the STRUCTURE of the lock set the code under test built: which
+// entries of the write and read tables are the same underlying mutex (by address; the RLocker
+// of an RWMutex has the RWMutex's address) and which entries only take the read side (by
+// dynamic type). A mis-built table - separate mutexes for readers and writers, one mutex
+// shared by several stripes - therefore shows up in the controlled schedules too.
+func newSchedLockSet(ctl *sched.Controller, origW, origR []sync.Locker) (*schedLockSet, []sync.Locker, []sync.Locker) {
 	set := &schedLockSet{ctl: ctl, held: map[int]int{}}
-	w := make([]sync.Locker, n)
-	r := make([]sync.Locker, n)
-	for i := 0; i < n; i++ {
-		set.states = append(set.states, &lockState{writer: -1, readers: map[int]int{}})
-		w[i] = &schedLocker{set: set, idx: i}
-		if multiReader {
-			r[i] = &schedLocker{set: set, idx: i, read: true}
-		} else {
-			r[i] = w[i]
+	byAddr := map[uintptr]int{}
+	stateOf := func(l sync.Locker) int {
+		addr := reflect.ValueOf(l).Pointer()
+		if i, ok := byAddr[addr]; ok {
+			return i
 		}
+		set.states = append(set.states, &lockState{writer: -1, readers: map[int]int{}})
+		byAddr[addr] = len(set.states) - 1
+		return len(set.states) - 1
+	}
+	isReadSide := func(l sync.Locker) bool { return strings.HasSuffix(fmt.Sprintf("%T", l), "rlocker") }
+	w := make([]sync.Locker, len(origW))
+	r := make([]sync.Locker, len(origR))
+	for i := range origW {
+		w[i] = &schedLocker{set: set, idx: stateOf(origW[i]), read: isReadSide(origW[i])}
+	}
+	for i := range origR {
+		r[i] = &schedLocker{set: set, idx: stateOf(origR[i]), read: isReadSide(origR[i])}
 	}
 	return set, w, r
 }
@@ -294,13 +308,15 @@ type c03LockSets struct {
 	mainConst  map[string]orcas.OrcaConst
 	batchConst map[string]orcas.OrcaConst
 	slot       map[string]uint32
-	size       map[string]int
+	origW      map[string][]sync.Locker
+	origR      map[string][]sync.Locker
 }
 
 // newC03LockSets creates one lock set per (mode, concurrency): orcas.Locked allocates from a
 // global table of 1024 slots, so the sets are created once and re-armed through the hook.
 func newC03LockSets() *c03LockSets {
-	ls := &c03LockSets{mainConst: map[string]orcas.OrcaConst{}, batchConst: map[string]orcas.OrcaConst{}, slot: map[string]uint32{}, size: map[string]int{}}
+	ls := &c03LockSets{mainConst: map[string]orcas.OrcaConst{}, batchConst: map[string]orcas.OrcaConst{}, slot: map[string]uint32{},
+		origW: map[string][]sync.Locker{}, origR: map[string][]sync.Locker{}}
 	for _, mr := range []bool{false, true} {
 		for _, conc := range []uint8{1, 4} {
 			k := fmt.Sprintf("%v/%d", mr, conc)
@@ -308,8 +324,10 @@ func newC03LockSets() *c03LockSets {
 			ls.mainConst[k] = oc
 			ls.batchConst[k] = orcas.LockedWithExisting(orcas.L1L2Batch, slot)
 			ls.slot[k] = slot
-			w, _ := orcas.VerifLockers(slot)
-			ls.size[k] = len(w)
+			// keep the lockers the code under test built: the scheduler-aware ones mirror them
+			w, r := orcas.VerifLockers(slot)
+			ls.origW[k] = append([]sync.Locker(nil), w...)
+			ls.origR[k] = append([]sync.Locker(nil), r...)
 		}
 	}
 	return ls
@@ -347,7 +365,7 @@ func c03Run(ls *c03LockSets, prog c03Program, ch *sched.Chooser) c03Outcome {
 	}
 	n := len(prog.Threads)
 	ctl := sched.NewController(n, ch)
-	set, w, r := newSchedLockSet(ctl, ls.size[key], prog.MultiReader)
+	set, w, r := newSchedLockSet(ctl, ls.origW[key], ls.origR[key])
 	orcas.VerifSetLockers(ls.slot[key], w, r)
 
 	connThread1 := map[int]int{}
